@@ -143,7 +143,7 @@ void world_msg_cb(tpt_p tpt, void *udata) {
 	}
 	pw = &W.pool[m->pool];
 	dst = (m->dst < 0) ? pw->pvt : pw->thr[m->dst];
-	if (pw->destroyed) { MSGV("callback-after-destroy", "message %d callback ran after tp_destroy returned", m->id); return; }
+	if (pw->destroyed) { sim_violation("callback-after-destroy", "message %d callback ran after tp_destroy returned", m->id); return; }
 	if (!m->sent) { MSGV("msg-never-sent", "message %d executed but was never sent", m->id); return; }
 	m->exec_count++;
 	sim_hash_u64(0x3e5a0000ull + (uint64_t)m->id);
